@@ -178,8 +178,7 @@ def encBucket (k3 : Bytes) : List Entry → Tape → Except Err (List Bytes × T
     pure (r :: more, t2)
   | some (w, id) :: rest, t => do
     let etag ← cfg.prfF.call lv.hmac k3 w
-    let (iv, t1) ← takeBytes 16 t
-    let c ← cfg.rnd.encrypt lv.E etag iv (id ++ zeros cfg.lambda.toNat)
+    let (c, t1) ← skeEncrypt cfg.rnd lv etag (id ++ zeros cfg.lambda.toNat) t
     let (more, t2) ← encBucket k3 rest t1
     pure (c :: more, t2)
 
